@@ -60,3 +60,7 @@ pub fn get_duplicates<'a>(items: impl Iterator<Item = &'a String>) -> Option<Vec
         Some(duplicates)
     }
 }
+
+#[cfg(kani)]
+#[path = "/verif/kani/vrp-pragmatic/common_proofs.rs"]
+mod verif_kani_proofs;
